@@ -310,8 +310,12 @@ class CategoricalInstance(PrefLibInstance):
             while len(preference) < num_categories:
                 preference.append(tuple())
             preference = tuple(preference)
-            cat_instance.preferences.append(preference)
-            cat_instance.multiplicity[preference] = multiplicities[index]
+            if preference in cat_instance.multiplicity:
+                # several orders can collapse to the same ballot
+                cat_instance.multiplicity[preference] += multiplicities[index]
+            else:
+                cat_instance.preferences.append(preference)
+                cat_instance.multiplicity[preference] = multiplicities[index]
 
         cat_instance.num_categories = num_categories
         for k in range(num_categories):
